@@ -386,16 +386,44 @@ func (a *An) retireImpliesMove() {
 		if len(cs) != 1 {
 			continue
 		}
-		var movers []ssa.Instruction
-		for _, b := range rot.Blocks {
-			for _, in := range b.Instrs {
-				for _, ef := range a.E.InstrEffects(in) {
-					if a.C.abs(rot, ef.Path) == "keyManagementContext."+ax.id {
-						movers = append(movers, in)
+		// what moves the id: a store to it, or a call of a function that moves it on every one of its paths (a call that
+		// may return without having moved it does not count)
+		var moversOf func(f *ssa.Function, depth int) []ssa.Instruction
+		moversOf = func(f *ssa.Function, depth int) []ssa.Instruction {
+			var out []ssa.Instruction
+			for _, b := range f.Blocks {
+				for _, in := range b.Instrs {
+					moves := false
+					for _, ef := range a.E.InstrEffects(in) {
+						if a.C.abs(f, ef.Path) == "keyManagementContext."+ax.id {
+							moves = true
+						}
 					}
+					if !moves {
+						continue
+					}
+					if call, isCall := in.(ssa.CallInstruction); isCall {
+						g := call.Common().StaticCallee()
+						if g == nil || g.Blocks == nil || depth > 3 || len(g.Blocks[0].Instrs) == 0 {
+							continue
+						}
+						inner := moversOf(g, depth+1)
+						always := len(inner) > 0
+						for _, r := range a.returnsOf(g) {
+							if reachesAvoiding(g.Blocks[0].Instrs[0], r, inner, nil) {
+								always = false
+							}
+						}
+						if !always {
+							continue
+						}
+					}
+					out = append(out, in)
 				}
 			}
+			return out
 		}
+		movers := moversOf(rot, 0)
 		ok := true
 		for _, r := range a.returnsOf(rot) {
 			if !canReach(cs[0], r) {
